@@ -185,6 +185,10 @@ func runConc(seed int64, nclients, nops int, size uint64, out string, shape stri
 		case 2:
 			return Op{Id: id, Proc: "remove", H: d, Name: n}
 		case 3, 4: // inside one directory (directories are not moved between parents: open finding F15)
+			if rg.Intn(4) == 0 {
+				// a rename that is refused after it has begun (the new name is too long): nobody may see its first half
+				return Op{Id: id, Proc: "rename", H: d, Name: n, H2: d, Name2: strings.Repeat("L", 200)}
+			}
 			return Op{Id: id, Proc: "rename", H: d, Name: n, H2: d, Name2: names[rg.Intn(len(names))]}
 		case 5:
 			return Op{Id: id, Proc: "lookup", H: d, Name: n}
